@@ -232,7 +232,7 @@ func (ck *Checker) disciplineObligations() []*Obligation {
 				}
 			}
 		}
-		out = append(out, effectsObl("discipline/execute-does-not-write-prog", []string{"C12", "C16"}, len(bad) == 0, "machine.go",
+		out = append(out, effectsObl("discipline/execute-does-not-write-prog", []string{"C12", "C16", "C19", "C04", "C03", "C09"}, len(bad) == 0, "machine.go",
 			"no function reachable from execute writes a field of Prog, a byte/int/value slice element or the line table: a Prog is only read by execution, so concurrent executions of one Prog share read-only memory and execution does not alter it", bad))
 	}
 
@@ -432,6 +432,27 @@ func (ck *Checker) disciplineObligations() []*Obligation {
 		sort.Strings(bad)
 		out = append(out, effectsObl("discipline/goroutine-results-handed-off-through-a-channel", []string{"C12"}, len(bad) == 0, "api.go",
 			fmt.Sprintf("every variable written by a started goroutine (%d found) is written only before a send of that goroutine, and the starter accesses it only after receiving from that channel", checked), bad))
+	}
+
+	// ---- C16/C12/C15: goroutines are started only by the file pipeline ---------------------------------
+	{
+		allowed := map[string]bool{"ParseFile": true, "newLexer": true}
+		var bad []string
+		for _, f := range p.All {
+			if p.shortPkg(f) != "" || f.Blocks == nil {
+				continue
+			}
+			for _, b := range f.Blocks {
+				for _, ins := range b.Instrs {
+					if _, ok := ins.(*ssa.Go); ok && !allowed[p.FuncName(f)] {
+						bad = append(bad, p.FuncName(f)+" starts a goroutine at "+p.Pos(instrPos(ins)))
+					}
+				}
+			}
+		}
+		sort.Strings(bad)
+		out = append(out, effectsObl("discipline/goroutines-only-in-the-file-pipeline", []string{"C16", "C12", "C15", "C11"}, len(bad) == 0, "package bcl",
+			"the only goroutines the library starts are the reader and parser of ParseFile and the lexer of newLexer; everything else (Parse's own work, execution, binding) is sequential, so its outcome cannot depend on scheduling", bad))
 	}
 
 	// ---- C07/C20: the lexer's window representation is hidden behind its primitives ---------------------
